@@ -402,6 +402,9 @@ def gsucc (P : List Instr) (g : G) : List G :=
 structure Sched where
   dur : Nat
   pred : Option Nat
+  /-- the callee returns / raises / dies only after these invocations have finished (it waits for an event that the caller sets
+      then): "arbitrary relative durations" includes a callee that outlives another invocation *by design* -/
+  gate : List Nat
 deriving Repr
 
 def runParent (P : List Instr) (i : Nat) : Nat → G → G
@@ -440,16 +443,22 @@ def callbackPhase : Nat → G → G
                 | some g'' => g''
                 | none => g'
 
-/-- can the child of `i` move now?  A running child moves when its virtual duration has elapsed. -/
-def childReady (g : G) (rem : List Nat) (i : Nat) : Bool :=
+/-- every invocation the callee of `i` waits for has finished -/
+def gateOpen (sc : List Sched) (g : G) (i : Nat) : Bool :=
+  match sc[i]? with
+  | some s => s.gate.all (isFinalAt g)
+  | none => true
+
+/-- can the child of `i` move now?  A running child moves when its virtual duration has elapsed and its gate is open. -/
+def childReady (sc : List Sched) (g : G) (rem : List Nat) (i : Nat) : Bool :=
   match g.invs[i]? with
-  | some l => (gChild i g).isSome && (l.st.cpc != .running || rem[i]?.getD 0 == 0)
+  | some l => (gChild i g).isSome && (l.st.cpc != .running || (rem[i]?.getD 0 == 0 && gateOpen sc g i))
   | none => false
 
 def minRunning (g : G) (rem : List Nat) : Option Nat :=
   ((List.range g.invs.length).filterMap (fun i =>
     match g.invs[i]? with
-    | some l => if l.st.cpc == .running then some (rem[i]?.getD 0) else none
+    | some l => if l.st.cpc == .running && rem[i]?.getD 0 > 0 then some (rem[i]?.getD 0) else none   -- (a callee at its end waits for its gate)
     | none => none)).min?
 
 /-- one iteration of the event loop: runnable coroutines, then ready callbacks -/
@@ -467,7 +476,7 @@ def schedule (P : List Instr) (sc : List Sched) : Nat → List Nat → G → G
   | 0, _, g => g
   | n + 1, rem, g =>
     if loopPhase P sc g != g then schedule P sc n rem (loopPhase P sc g)
-    else match (List.range g.invs.length).find? (childReady g rem) with
+    else match (List.range g.invs.length).find? (childReady sc g rem) with
       | some i => schedule P sc n rem (runChild i 8 g)
       | none =>
         match minRunning g rem with
@@ -486,7 +495,7 @@ def scheduleH (hold : List Nat) (P : List Instr) (sc : List Sched) : Nat → Lis
   | 0, _, g => g
   | n + 1, rem, g =>
     if loopPhase P sc g != g then scheduleH hold P sc n rem (loopPhase P sc g)
-    else match (List.range g.invs.length).find? (fun i => childReady g rem i && !lingering hold g i) with
+    else match (List.range g.invs.length).find? (fun i => childReady sc g rem i && !lingering hold g i) with
       | some i => scheduleH hold P sc n rem (runChild i (if hold.contains i then 1 else 8) g)   -- a held child stops after its send
       | none =>
         match minRunning g rem with
